@@ -101,6 +101,10 @@ impl Cm for TriC {
 impl Cm for SeptC {
     const ID: CodecId = CodecId::Sept;
 }
+pub type OctC = crate::custom::Oct;
+impl Cm for OctC {
+    const ID: CodecId = CodecId::Oct;
+}
 
 /// run `$body` with the type alias `$C` bound to the codec type named by `$id`
 #[macro_export]
@@ -141,6 +145,10 @@ macro_rules! with_codec {
             }
             $crate::model::CodecId::Sept => {
                 type $C = $crate::codecs::SeptC;
+                $body
+            }
+            $crate::model::CodecId::Oct => {
+                type $C = $crate::codecs::OctC;
                 $body
             }
         }
